@@ -717,7 +717,7 @@ def _parse_error(text: str) -> bool:
 
 
 def run_impl(case):
-    """implementation output for every configuration of the case: sorted [rule_id, line, column]"""
+    """implementation output for every configuration of the case: sorted [rule_id, line, column, message]"""
     global _orch
     with scratch_dir("tv-c17-") as d:
         f = d / "case.rs"
@@ -972,6 +972,12 @@ def run(tier: str, seed: int, replay: str | None = None) -> int:
     chk.build(["theories/Props/C17.v"], ["RustSafetyGen"], known_v=["theories/Props/C17Known.v"])
     scale = chk.budget_scale()
     base_files = 450 if tier == "quick" else 4500
+    # mutation trials on an overloaded machine (tools/trymut_wt.sh) may shorten the search: the generated files are a prefix of
+    # the regular run's (same seed chain, same indices), so a failing input found here is found by the regular run as well
+    import os
+    if os.environ.get("VERIF_C17_FILES", "").isdigit():
+        base_files = max(30, int(os.environ["VERIF_C17_FILES"]))
+        chk.notes.append(f"search shortened to {base_files} generated files per stage by VERIF_C17_FILES (mutation trial)")
     max_depth = 3 if tier == "quick" else 4
     # staged search: the first stage is the regular budget; further stages (same seed chain, fresh indices) run only
     # when an obligation / the correspondence broke and no failing input has been found yet
@@ -1050,7 +1056,7 @@ def run(tier: str, seed: int, replay: str | None = None) -> int:
                     continue
                 cand, alone = [bool(b) for b in bits[3:3 + NC]], [bool(b) for b in bits[3 + NC:]]
                 info = {"config": cfg, "impl": r, "case": case,
-                        "reason": "reported calls differ from the documented rule (which calls, rule id, line or column)"}
+                        "reason": "reported calls differ from the documented rule (which calls, rule id, line, column or message text)"}
                 # a listed defect matters here when removing it alone changes the faithful model's output, or (several
                 # defects hiding one another) when it alone makes the corrected model miss the specification
                 relevant = [FLAGS[i] for i in range(len(FLAGS)) if (base == 0 and not cand[1 + i]) or not alone[i]]
